@@ -2,6 +2,7 @@ package main
 
 import (
 	"go/token"
+	"go/types"
 	"strings"
 
 	"golang.org/x/tools/go/ssa"
@@ -284,6 +285,55 @@ func checkC37(p *Prog, r *Report) {
 				r.check(!late, "E5.data-registered-before-deps", "data is registered before deps / exported_deps", p.pos(dataCalls[0].Pos()), fnName(pt), "no addDependencies call precedes the registration of data", "populateTarget registers `data` after the dependencies: AddDatum then marks a label that is also in deps as data-only, BuildDependencies() leaves it out, its outputs are not linked into the build directory, and $(location :x) expands to a path that does not exist when the command runs")
 			}
 		}
+	}
+	// inputs are linked into the build directory once per *path*: the same target can arrive as different inputs (all
+	// outputs, one named group, an entry point), so a skip keyed by the input's label drops files that $(locations) names
+	if is := p.Fn("core", "IterSources"); is == nil {
+		r.unresolved("E5.sources-deduplicated-by-path-only", "core.IterSources")
+	} else {
+		byLabel := false
+		for _, g := range withAnon(is) {
+			eachInstr(g, false, func(_ *ssa.Function, i ssa.Instruction) {
+				lk, ok := i.(*ssa.Lookup)
+				if !ok {
+					return
+				}
+				if mt, ok := lk.X.Type().Underlying().(*types.Map); ok && strings.HasSuffix(typeString(mt.Key()), "core.BuildLabel") {
+					byLabel = true
+				}
+			})
+		}
+		r.check(!byLabel, "E5.sources-deduplicated-by-path-only", "IterSources skips an input only because its path was already linked", p.pos(is.Pos()), fnName(is), "no set keyed by build label in IterSources", "IterSources skips inputs whose label was seen before: //x:gen|hdrs and //x:gen have the same label but different paths, so after the named group the remaining outputs are never linked, while $(locations //x:gen) still names them")
+	}
+	// looking a label up among the dependencies may add the target's own subrepo to a label that has none; it never takes
+	// a subrepo away or swaps it (the tool / non-tool decision next to it is made on the label as written)
+	if df := p.Fn("core", "BuildTarget.dependenciesFor"); df == nil {
+		r.unresolved("E9.tool-predicate-agreement", "core.BuildTarget.dependenciesFor")
+	} else {
+		bad := false
+		eachInstr(df, false, func(_ *ssa.Function, i ssa.Instruction) {
+			st, ok := i.(*ssa.Store)
+			if !ok || fieldKey(st.Addr) != "core.BuildLabel.Subrepo" {
+				return
+			}
+			wasEmpty := false
+			for _, f := range factsAt(st) {
+				if bo, ok := f.V.(*ssa.BinOp); ok && bo.Op == token.EQL && f.Val {
+					if sv, isC := constString(bo.Y); isC && sv == "" && fieldKeyOfLoad(bo.X) == "core.BuildLabel.Subrepo" {
+						if receiverOf(bo.X) == receiverOf(st.Addr) || receiverOf(bo.X) != nil {
+							wasEmpty = true
+						}
+					}
+				}
+			}
+			if sv, isC := constString(st.Val); isC && sv == "" {
+				wasEmpty = false
+			}
+			if !wasEmpty {
+				bad = true
+			}
+		})
+		r.check(!bad, "E9.tool-predicate-agreement", "dependenciesFor only completes a label that has no subrepo", p.pos(df.Pos()), fnName(df), "label.Subrepo is assigned only under label.Subrepo == \"\", and never to \"\"", "dependenciesFor retries a lookup with the label's subrepo removed or replaced: the lookup then succeeds for a host tool referred to through the architecture subrepo, but IsTool next to it is still asked about the label as written, takes the non-tool branch, and $(exe //tools:gen) expands to a relative path that is never linked into the build directory instead of being rejected")
 	}
 	rule = "E5.bad-reference-rejected"
 	{
